@@ -74,7 +74,13 @@ CLASSES = (
     "caller edits in place after construction, nx = 3 with 2..4 stamps, pressure arrays with NaN cells, optional arguments in every "
     "positional / keyword combination, saturation records that are multi-field views of wider arrays, rel-perm tables in any row "
     "order, schedules held by the object (constructor array, left over from an earlier run), daily volumes of 1e-9, salinities "
-    "from 0.003 to 25 wt%, flags passed as numpy booleans or integers"
+    "from 0.003 to 25 wt%, flags passed as numpy booleans or integers, "
+    "tables in their own-alpha form with a scaled drawdown above one, forecasters built without a bounds argument on records "
+    "whose optimum lies outside the default limits, the caller's tables compared after FAILED constructor calls too, fluid "
+    "attributes (m_i, alpha) re-assigned between runs and judged against a fresh fluid, np.float64-typed parameters with "
+    "float32 grids, standard temperature 0 F, whole-number saturation records in integer fields, rescale_pseudopressure on "
+    "the multiphase column, extra entries in the densities mapping (rho_ref ...), n-D schedules whose cell count equals the "
+    "number of stamps"
 )
 
 os.makedirs(OUT, exist_ok=True)
